@@ -78,7 +78,9 @@ class _G:
         n = c["nparams"]
         args = [self.atom(sc) for _ in range(n)]
         if c["kind"] == "func" and n >= 2 and self.chance(25):
-            args[-1] = "%s=%s" % (c["params"][-1], args[-1])
+            # keyword argument with a single-state (literal) value: a keyword argument whose value has >= 2
+            # states is the second construct of the known finding C14-unmatched-parameters-in-set-order
+            args[-1] = "%s=%s" % (c["params"][-1], self.pick(["0", "7", '"kw"']))
         return c, "%s(%s)" % (c["expr"], ", ".join(args))
 
     # -- statements --------------------------------------------------------------------------------
@@ -334,6 +336,235 @@ def python_projects(draw):
         files["sub_pkg/leaf.py"] = text
         files["sub_pkg/__init__.py"] = ""
     return {"salt": salt, "lang": "python", "files": files}
+
+
+class _GJ(_G):
+    """JavaScript rendering of the same project shape (CommonJS modules, classes, closures, object/array
+    literals, unresolved globals, parameter sources and sink() calls)."""
+
+    def call_expr(self, sc):
+        c = self.pick(sc["callables"])
+        args = [self.atom(sc) for _ in range(c["nparams"])]
+        new = "new " if c["kind"] == "class" else ""
+        return c, "%s%s(%s)" % (new, c["expr"], ", ".join(args))
+
+    def stmt(self, sc, depth, ind):
+        pad = "    " * ind
+        kinds = ["binop", "binop", "call", "call", "extcall", "extpair", "dict", "list", "sink", "sink"]
+        if sc["objs"]:
+            kinds += ["mcall", "mcall", "fwrite", "fread"]
+        if sc["dicts"]:
+            kinds += ["dread", "dwrite"]
+        if sc["lists"]:
+            kinds += ["lread"]
+        if depth < 2:
+            kinds += ["if", "for"]
+        if sc.get("in_func") and depth == 0:
+            kinds += ["closure"]
+        if sc.get("self_fields"):
+            kinds += ["selfread", "selfwrite"]
+        k = self.pick(kinds)
+        var = lambda: "var " + self.newvar(sc)
+        if k == "binop":
+            a, b = self.atom(sc), self.atom(sc)
+            return ["%s%s = %s %s %s;" % (pad, var(), a, self.pick(["+", "+", "-", "*"]), b)]
+        if k == "call" and sc["callables"]:
+            c, e = self.call_expr(sc)
+            v = self.newvar(sc)
+            if c["kind"] == "class":
+                sc["objs"][v] = c["cls"]
+            return ["%svar %s = %s;" % (pad, v, e)]
+        if k == "extcall":
+            return ["%s%s = %s(%s, %s);" % (pad, var(), self.pick(EXTS), self.atom(sc), self.pick(EXTS))]
+        if k == "extpair":
+            a, b = self.some(EXTS, 2, 2)
+            return ["%s%s = %s + %s;" % (pad, var(), a, b)]
+        if k == "dict":
+            ks = self.some(KEYS, 2, 4)
+            body = ", ".join("%s: %s" % (kk, self.atom(sc)) for kk in ks)
+            v = self.newvar(sc)
+            sc["dicts"][v] = ks
+            return ["%svar %s = {%s};" % (pad, v, body)]
+        if k == "list":
+            v = self.newvar(sc)
+            n = self.i(2, 4)
+            sc["lists"][v] = n
+            return ["%svar %s = [%s];" % (pad, v, ", ".join(self.atom(sc) for _ in range(n)))]
+        if k == "sink":
+            return ["%ssink(%s);" % (pad, self.var_atom(sc))]
+        if k == "mcall":
+            o = self.pick(sorted(sc["objs"]))
+            ms = sc["objs"][o]["all_methods"]
+            if ms:
+                m = self.pick(ms)
+                args = ", ".join(self.atom(sc) for _ in range(m["nparams"]))
+                return ["%s%s = %s.%s(%s);" % (pad, var(), o, m["name"], args)]
+            return ["%s%s = %s.%s;" % (pad, var(), o, self.pick(FIELDS))]
+        if k == "fwrite":
+            return ["%s%s.%s = %s;" % (pad, self.pick(sorted(sc["objs"])), self.pick(FIELDS), self.atom(sc))]
+        if k == "fread":
+            return ["%s%s = %s.%s;" % (pad, var(), self.pick(sorted(sc["objs"])), self.pick(FIELDS))]
+        if k == "dread":
+            d = self.pick(sorted(sc["dicts"]))
+            return ["%s%s = %s.%s;" % (pad, var(), d, self.pick(sc["dicts"][d]))]
+        if k == "dwrite":
+            d = self.pick(sorted(sc["dicts"]))
+            return ['%s%s["%s"] = %s;' % (pad, d, self.pick(KEYS), self.atom(sc))]
+        if k == "lread":
+            l = self.pick(sorted(sc["lists"]))
+            return ["%s%s = %s[%d];" % (pad, var(), l, self.i(0, sc["lists"][l] - 1))]
+        if k == "selfread":
+            return ["%s%s = this.%s;" % (pad, var(), self.pick(sc["self_fields"]))]
+        if k == "selfwrite":
+            return ["%sthis.%s = %s;" % (pad, self.pick(FIELDS), self.atom(sc))]
+        if k == "if":
+            out = ["%sif (%s) {" % (pad, self.atom(sc))]
+            out += self.stmts(sc, self.i(1, 2), depth + 1, ind + 1)
+            if self.chance(60):
+                out.append("%s} else {" % pad)
+                out += self.stmts(sc, self.i(1, 2), depth + 1, ind + 1)
+            out.append("%s}" % pad)
+            return out
+        if k == "for":
+            it = self.pick(sorted(sc["lists"])) if sc["lists"] and self.chance(70) else self.atom(sc)
+            x = self.newvar(sc)
+            out = ["%sfor (var %s of %s) {" % (pad, x, it)]
+            out += self.stmts(sc, self.i(1, 2), depth + 1, ind + 1)
+            out.append("%s}" % pad)
+            return out
+        if k == "closure":
+            name = "inner_" + self.pick(FUNCS)
+            z = self.pick(VARS)
+            free = self.var_atom(sc)
+            style = self.i(0, 1)
+            head = "%sfunction %s(%s) {" % (pad, name, z) if style == 0 else "%svar %s = function (%s) {" % (pad, name, z)
+            out = [head, "%s    var cv_%s = %s + %s;" % (pad, z, z, free), "%s    return cv_%s;" % (pad, z),
+                   "%s}" % pad if style == 0 else "%s};" % pad]
+            out.append("%s%s = %s(%s);" % (pad, var(), name, self.atom(sc)))
+            return out
+        return ["%s%s = %s;" % (pad, var(), self.atom(sc))]
+
+    def func(self, mod_sc, name, ind=0, is_method=False, self_fields=None):
+        pad = "    " * ind
+        extra = self.some(VARS, 0, 2)
+        params = ["p"] + extra
+        sig = list(params)
+        if extra and self.chance(30):
+            sig[-1] = "%s = %s" % (sig[-1], self.pick(["0", '"dflt"', "null"]))
+        sc = self.new_scope(mod_sc, params)
+        if is_method:
+            sc["self_fields"] = list(self_fields or [])
+        body = self.stmts(sc, self.i(2, 4), 0, ind + 1)
+        if self.chance(75):
+            body.append("%s    sink(%s);" % (pad, self.pick(["p"] + sc["vars"][:3])))
+        body.append("%s    return %s;" % (pad, self.var_atom(sc)))
+        head = "%s%s(%s) {" % (pad, name, ", ".join(sig)) if is_method else "%sfunction %s(%s) {" % (pad, name, ", ".join(sig))
+        return {"name": name, "nparams": len(params), "params": params}, [head] + body + ["%s}" % pad]
+
+    def klass(self, mod_sc, name, bases):
+        base = self.pick(bases) if bases and self.chance(60) else None
+        lines = ["class %s extends %s {" % (name, base["expr"]) if base else "class %s {" % name]
+        fields = self.some(FIELDS, 1, 3)
+        lines.append("    constructor(p) {")
+        if base:
+            lines.append("        super(p);")
+        for f in fields:
+            lines.append("        this.%s = %s;" % (f, self.pick(["p", "p", "0", self.pick(EXTS)])))
+        lines.append("    }")
+        methods = []
+        for mname in self.some(METHODS, 1, 2):
+            info, ls = self.func(mod_sc, mname, ind=1, is_method=True, self_fields=fields)
+            methods.append(info)
+            lines += ls
+        lines.append("}")
+        own = {m["name"] for m in methods}
+        inherited = [m for m in (base["cls"]["all_methods"] if base else []) if m["name"] not in own]
+        return {"name": name, "methods": methods, "base": base, "all_methods": methods + inherited}, lines
+
+    def module(self, idx, name, earlier):
+        lines = []
+        mod_sc = {"callables": [], "consts": []}
+        bases = []
+        for m in earlier:
+            if not (self.chance(80) or m is earlier[-1]):
+                continue
+            if self.chance(50):
+                ref = "m_" + m["name"][-1]
+                lines.append("const %s = require('./%s');" % (ref, m["name"]))
+                for f in m["funcs"]:
+                    mod_sc["callables"].append({"kind": "func", "expr": "%s.%s" % (ref, f["name"]), "nparams": f["nparams"], "params": f["params"]})
+                for c in m["classes"]:
+                    ent = {"kind": "class", "expr": "%s.%s" % (ref, c["name"]), "nparams": 1, "cls": c}
+                    mod_sc["callables"].append(ent)
+                    bases.append(ent)
+            else:
+                names = []
+                for f in m["funcs"]:
+                    if self.chance(70) or not names:
+                        names.append(f["name"])
+                        mod_sc["callables"].append({"kind": "func", "expr": f["name"], "nparams": f["nparams"], "params": f["params"]})
+                for c in m["classes"]:
+                    if self.chance(70):
+                        names.append(c["name"])
+                        ent = {"kind": "class", "expr": c["name"], "nparams": 1, "cls": c}
+                        mod_sc["callables"].append(ent)
+                        bases.append(ent)
+                if names:
+                    lines.append("const { %s } = require('./%s');" % (", ".join(names), m["name"]))
+        if self.chance(60):
+            lines.append("const %s = require('%s');" % (self.pick(["fs", "path", "extlib"]), self.pick(["fs", "path", "extlib"])))
+        consts = []
+        for cn in self.some([v.upper() for v in VARS], 1, 3):
+            val = self.pick(["1", '"c"', "{%s: 2, %s: 3}" % tuple(self.some(KEYS, 2, 2)), "[1, 2]", self.pick(EXTS)])
+            lines.append("var %s = %s;" % (cn, val))
+            consts.append(cn)
+            mod_sc["consts"].append(cn)
+        classes = []
+        used = {c["name"] for m in earlier for c in m["classes"]} | {f["name"] for m in earlier for f in m["funcs"]}
+        for cname in self.some([c for c in CLASSES if c not in used], 1 if idx == 0 else 0, 2):
+            cls, ls = self.klass(mod_sc, cname, bases)
+            classes.append(cls)
+            lines += ls
+            ent = {"kind": "class", "expr": cname, "nparams": 1, "cls": cls}
+            mod_sc["callables"].append(ent)
+            bases.append(ent)
+        funcs = []
+        for fname in self.some([f for f in FUNCS if f not in used], 1, 3):
+            info, ls = self.func(mod_sc, fname)
+            funcs.append(info)
+            lines += ls
+            mod_sc["callables"].append({"kind": "func", "expr": fname, "nparams": info["nparams"], "params": info["params"]})
+        sc = self.new_scope(mod_sc, (), in_func=False)
+        top = []
+        a, b = self.some(EXTS, 2, 2)
+        top.append("var %s = %s(%s, %s);" % (self.newvar(sc), self.pick(EXTS), a, b))
+        for c in classes:
+            v = self.newvar(sc)
+            sc["objs"][v] = c
+            top.append("var %s = new %s(%s);" % (v, c["name"], self.atom(sc)))
+        for f in funcs:
+            for _ in range(self.i(1, 2)):
+                top.append("var %s = %s(%s);" % (self.newvar(sc), f["name"], ", ".join(self.atom(sc) for _ in range(f["nparams"]))))
+        top += self.stmts(sc, self.i(2, 4), 0, 0)
+        top.append("sink(%s);" % self.var_atom(sc))
+        lines += top
+        exported = [f["name"] for f in funcs] + [c["name"] for c in classes]
+        lines.append("module.exports = { %s };" % ", ".join(exported))
+        return {"name": name, "funcs": funcs, "classes": classes, "consts": []}, "\n".join(lines) + "\n"
+
+
+@st.composite
+def javascript_projects(draw):
+    salt = draw(st.integers(0, 2 ** 30))
+    g = _GJ(draw)
+    nmods = draw(st.integers(2, 3))
+    names = draw(st.lists(st.sampled_from(MODS), min_size=nmods, max_size=nmods, unique=True))
+    infos, files = [], {}
+    for idx, name in enumerate(names):
+        info, text = g.module(idx, name, infos)
+        infos.append(info)
+        files[name + ".js"] = text
+    return {"salt": salt, "lang": "javascript", "files": files}
 
 
 # ---------------------------------------------------------------------------------------------
